@@ -34,8 +34,8 @@ where
         };
         serde_json::to_writer(&mut out, &obs).unwrap();
         out.write_all(b"\n").unwrap();
+        out.flush().unwrap();
     }
-    out.flush().unwrap();
 }
 
 fn main() {
